@@ -60,8 +60,8 @@ pub struct Readout {
 #[derive(Clone, Debug)]
 pub enum BK {
     RegEnd { key: usize },
-    UpdBegin { key: usize, op: &'static str, v: f64 },
-    UpdEnd { key: usize, op: &'static str, v: f64 },
+    UpdBegin { key: usize, op: &'static str, v: f64, n: u64 },
+    UpdEnd { key: usize, op: &'static str, v: f64, n: u64 },
     DescBegin { name: String },
     DescEnd { name: String },
     ReadBegin { rid: u64, wall_ns: i64 },
@@ -256,7 +256,7 @@ fn updater(rec: Rec, log: BLog, plan: Value, ops: Vec<Value>, gate: RegistryGate
             "yield" => detsim::yield_point(),
             "sleep" => detsim::sleep_ns(ju(op, "ns", 0)),
             "describe" => describe(&rec, &log, &plan, js(op, "name", "")),
-            "register" | "inc" | "set" | "ginc" | "gdec" | "rec" => {
+            "register" | "inc" | "set" | "ginc" | "gdec" | "rec" | "recm" => {
                 let ki = ju(op, "key", 0) as usize;
                 let Some(spec) = keys.get(ki) else { continue };
                 let fresh = jb(op, "fresh", false);
@@ -290,18 +290,21 @@ fn updater(rec: Rec, log: BLog, plan: Value, ops: Vec<Value>, gate: RegistryGate
                     "set" => "set",
                     "ginc" => "ginc",
                     "gdec" => "gdec",
+                    "recm" => "recm",
                     _ => "rec",
                 };
-                log.log(BK::UpdBegin { key: ki, op: opn, v });
+                let n = if opn == "recm" { ju(op, "n", 1) } else { 1 };
+                log.log(BK::UpdBegin { key: ki, op: opn, v, n });
                 match (cache.get(&ki).unwrap(), opn) {
                     (Handle::C(c), "inc") => c.increment(v as u64),
                     (Handle::G(g), "set") => g.set(v),
                     (Handle::G(g), "ginc") => g.increment(v),
                     (Handle::G(g), "gdec") => g.decrement(v),
                     (Handle::H(h), "rec") => h.record(v),
+                    (Handle::H(h), "recm") => h.record_many(v, n as usize),
                     _ => {}
                 }
-                log.log(BK::UpdEnd { key: ki, op: opn, v });
+                log.log(BK::UpdEnd { key: ki, op: opn, v, n });
             }
             _ => {}
         }
@@ -337,7 +340,7 @@ fn bridge_main(plan: &Value, log: BLog) {
     let w2 = wall.clone();
     let g2 = gate.clone();
     let rep = detsim::thread::spawn_named("reporter", move || {
-        let _ts = set_time_source(TimeSource::custom(SimTime { wall_ns: w2.clone() }));
+        let _ts = set_time_source(TimeSource::custom(SimTime::plain(w2.clone())));
         let mut rid = 0u64;
         for op in &rep_ops {
             match js(op, "op", "") {
@@ -358,7 +361,7 @@ fn bridge_main(plan: &Value, log: BLog) {
     let _ = rep.join();
     log.log(BK::Note("all_joined"));
     // the final readout (what the reporter does at shutdown)
-    let _ts = set_time_source(TimeSource::custom(SimTime { wall_ns: wall.clone() }));
+    let _ts = set_time_source(TimeSource::custom(SimTime::plain(wall.clone())));
     do_readout(&rec, &log, 1_000_000, &wall, &gate);
     if jb(plan, "second_final", false) {
         do_readout(&rec, &log, 1_000_001, &wall, &gate);
@@ -459,25 +462,26 @@ pub fn check_c20(plan: &Value, h: &[BEv]) -> Option<Violation> {
         let reg_end = h.iter().find(|e| matches!(e.k, BK::RegEnd { key } if key == ki)).map(|e| e.seq);
         let find = |r: &Rd| -> Option<SeenMetric> { r.out.metrics.iter().find(|m| m.name == spec.name && m.dims == spec.labels).cloned() };
         // updates of this key: (inv, ret, op, v, tid)
-        let mut upd: Vec<(u64, u64, &'static str, f64, usize)> = vec![];
+        // (inv, ret, op, v, tid, occurrences)
+        let mut upd: Vec<(u64, u64, &'static str, f64, usize, u64)> = vec![];
         {
-            let mut open: BTreeMap<usize, (u64, &'static str, f64)> = BTreeMap::new();
+            let mut open: BTreeMap<usize, (u64, &'static str, f64, u64)> = BTreeMap::new();
             for e in h {
                 match &e.k {
-                    BK::UpdBegin { key, op, v } if *key == ki => {
-                        open.insert(e.tid, (e.seq, op, *v));
+                    BK::UpdBegin { key, op, v, n } if *key == ki => {
+                        open.insert(e.tid, (e.seq, op, *v, *n));
                     }
                     BK::UpdEnd { key, .. } if *key == ki => {
-                        if let Some((inv, op, v)) = open.remove(&e.tid) {
-                            upd.push((inv, e.seq, op, v, e.tid));
+                        if let Some((inv, op, v, n)) = open.remove(&e.tid) {
+                            upd.push((inv, e.seq, op, v, e.tid, n));
                         }
                     }
                     _ => {}
                 }
             }
             // updates that never returned (thread died): still "invoked"
-            for (tid, (inv, op, v)) in open {
-                upd.push((inv, u64::MAX, op, v, tid));
+            for (tid, (inv, op, v, n)) in open {
+                upd.push((inv, u64::MAX, op, v, tid, n));
             }
         }
         match spec.kind.as_str() {
@@ -536,8 +540,8 @@ pub fn check_c20(plan: &Value, h: &[BEv]) -> Option<Violation> {
                             }
                         }
                     }
-                    let lo = upd.iter().filter(|u| u.1 < r.inv).count() as u64;
-                    let hi = upd.iter().filter(|u| u.0 < r.ret).count() as u64;
+                    let lo: u64 = upd.iter().filter(|u| u.1 < r.inv).map(|u| u.5).sum();
+                    let hi: u64 = upd.iter().filter(|u| u.0 < r.ret).map(|u| u.5).sum();
                     if reported < lo {
                         return Some(Violation::new("histogram_sample_lost", format!("histogram {:?}{:?}: after readout {} the readouts count {} samples, but {} records had returned before that readout began", spec.name, spec.labels, r.rid, reported, lo)));
                     }
@@ -546,10 +550,11 @@ pub fn check_c20(plan: &Value, h: &[BEv]) -> Option<Violation> {
                     }
                 }
                 if complete {
-                    if reported as usize != upd.len() {
-                        return Some(Violation::new("histogram_total_mismatch", format!("histogram {:?}{:?}: readouts count {reported} samples, {} were recorded", spec.name, spec.labels, upd.len())));
+                    let recorded: u64 = upd.iter().map(|u| u.5).sum();
+                    if reported != recorded {
+                        return Some(Violation::new("histogram_total_mismatch", format!("histogram {:?}{:?}: readouts count {reported} samples, {recorded} were recorded", spec.name, spec.labels)));
                     }
-                    let mut want: Vec<(f64, f64)> = upd.iter().map(|u| (hist_expected(u.3), u.3)).collect();
+                    let mut want: Vec<(f64, f64)> = upd.iter().flat_map(|u| std::iter::repeat_n((hist_expected(u.3), u.3), u.5 as usize)).collect();
                     want.sort_by(|a, b| a.0.partial_cmp(&b.0).unwrap());
                     all_rep.sort_by(|a, b| a.partial_cmp(b).unwrap());
                     for (w, got) in want.iter().zip(all_rep.iter()) {
@@ -720,7 +725,13 @@ pub fn gen_c20(rng: &mut Rng, tier: Tier) -> Value {
                         t.push(json!({"op":"inc","key":ki,"v":n as f64,"fresh":fresh}));
                     }
                 }
-                "h" => t.push(json!({"op":"rec","key":ki,"v":hist_value(rng),"fresh":fresh})),
+                "h" => {
+                    if rng.chance(0.2) {
+                        t.push(json!({"op":"recm","key":ki,"v":hist_value(rng),"n":*rng.pick(&[0u64, 1, 2, 3, 17]),"fresh":fresh}));
+                    } else {
+                        t.push(json!({"op":"rec","key":ki,"v":hist_value(rng),"fresh":fresh}));
+                    }
+                }
                 "gs" => {
                     uniq += 1;
                     t.push(json!({"op":"set","key":ki,"v":(uniq as f64) + 0.25,"fresh":fresh}));
@@ -903,7 +914,7 @@ impl metrique_writer::AnyEntrySink for ReadoutSink {
 fn reporter_main(plan: &Value, log: BLog) {
     let wall_ns = 1_700_000_000_000_000_000i64 + ji(plan, "wall_off", 0);
     let wall = Arc::new(AtomicI64::new(wall_ns));
-    let _ts = set_time_source(TimeSource::custom(SimTime { wall_ns: wall.clone() }));
+    let _ts = set_time_source(TimeSource::custom(SimTime::plain(wall.clone())));
     let rt = tokio::runtime::Builder::new_current_thread().enable_time().start_paused(true).build().expect("runtime");
     let interval = std::time::Duration::from_millis(ju(plan, "interval_ms", 60_000));
     let sink = ReadoutSink { log: log.clone(), n: Arc::new(std::sync::atomic::AtomicU64::new(0)), wall: wall_ns };
